@@ -25,7 +25,7 @@ var yamlPool = []string{
 	"2001-12-14", "2001-12-14t21:59:43.10-05:00", "2002-12-14", "- x", "-", "- ", "a: b", "a:", ": a", "a #b", "#", "# c", "|", ">", "|-", ">+",
 	"&a", "*a", "!t", "!!str x", "%", "%YAML", "@", "`", "'", "''", "\"", "\"\"", "'a'", "\"a\"", "[", "]", "{", "}", "[]", "{}", "[a]", "{a: b}", ",", "a,b",
 	"---", "...", "--- a", "?", "? a", " a", "a ", " ", "  ", "\t", "\ta", "a\t", "\n", "a\n", "\na", "a\nb", "a\n\nb", "a\r\nb", "\r", "a\rb",
-	"\u00e9", "\u65e5\u672c\u8a9e", "\U0001F600", "\x00", "\x01", "\x1f", "\x7f", "\u0080", "\u0085", "\u009f", "\u00a0", "\u2028", "\u2029", "\ufeff", "\ufeffa", "\ufffd",
+	"//", "a // b", "/* c */", "a /* b */ c", "C:\\", "x\\", "*/", "\u00e9", "\u65e5\u672c\u8a9e", "\U0001F600", "\x00", "\x01", "\x1f", "\x7f", "\u0080", "\u0085", "\u009f", "\u00a0", "\u2028", "\u2029", "\ufeff", "\ufeffa", "\ufffd",
 	"C:\\U0001F600", "\\U0001F600", "\\u00e9", "\\x41", "rate - 1e+06", "x: 3e+21\ny", "- 4e+06", "a\n- 1e+06", "k: 1e+06", "1e+06", "v: 1.0e+06", "a: 1\nb:\n- 2\n- x\n", "- a\n- - b\n", "\"q\": \"r\"\n",
 	"<<", "=", "<", ">>", "key: [unclosed", "line1\n  indented\nline3", strings.Repeat("long ", 30), "\\", "\\n", "a\\", "\"a\\\"", "\u00e9: \u00fc",
 }
@@ -394,7 +394,9 @@ func checkC16CLI(c YamlCLICase, r *rec.Rec) error {
 		}
 	}
 	// -yaml diff and -p -yaml reproduce b
-	res := runCLI(c.Bin, []string{"-yaml", "-o=d.jd", "a.yaml", "b.yaml"}, nil, dir)
+	// the name of the diff file says nothing about the documents: it varies with the case
+	dname := []string{"d.jd", "d.json", "d", "d.txt", "d.yaml", "d.yml"}[val.FNV64(c.A+"|"+c.B)%6]
+	res := runCLI(c.Bin, []string{"-yaml", "-o=" + dname, "a.yaml", "b.yaml"}, nil, dir)
 	if err := cliTrouble(res); err != nil {
 		return err
 	}
@@ -405,7 +407,7 @@ func checkC16CLI(c YamlCLICase, r *rec.Rec) error {
 	if (res.Status == 0) != equal {
 		return viol("%s -yaml exits %d but the documents are equal=%v (a=%s b=%s)", c.Bin, res.Status, equal, c.A, c.B)
 	}
-	res = runCLI(c.Bin, []string{"-yaml", "-p", "d.jd", "a.yaml"}, nil, dir)
+	res = runCLI(c.Bin, []string{"-yaml", "-p", dname, "a.yaml"}, nil, dir)
 	if err := cliTrouble(res); err != nil {
 		return err
 	}
